@@ -213,6 +213,39 @@ fn l5() -> Vec<Vec<u8>> {
         v.push(encode(&m, Strategy::Max));
         v.push(encode(&m, Strategy::Plain));
     }
+    // the packet ends with a record that has no data at all (in each section; alone, after another record,
+    // after an OPT record), and with records of the shortest possible size
+    for sec in 0..3usize {
+        for before in 0..3usize {
+            let empty = Rec { owner: nm("b.a"), rtype: 99, class: 1, ttl: 7, rdata: Rdata::Opaque(vec![]) };
+            let mut m = base_msg(&nm("b.a"), T_A, true);
+            m.an.push(name_rec(&nm("b.a"), T_CNAME, 1, &nm("c.b.a")));
+            let list = match sec {
+                0 => &mut m.an,
+                1 => &mut m.ns,
+                _ => &mut m.ar,
+            };
+            if before == 1 {
+                list.push(a_rec(&nm("c.b.a"), 2, [1, 2, 3, 4]));
+            }
+            if before == 2 && sec == 2 {
+                list.push(opt_variants()[1].clone());
+            }
+            list.push(empty);
+            v.push(encode(&m, Strategy::Max));
+            v.push(encode(&m, Strategy::Plain));
+        }
+    }
+    // RRsets with an owner unrelated to the question, written out once
+    {
+        let xy = nm("x.y");
+        let mut m = base_msg(&nm("b.a"), T_A, true);
+        m.an.push(a_rec(&xy, 300, [10, 0, 0, 1]));
+        m.an.push(a_rec(&xy, 301, [10, 0, 0, 2]));
+        m.ns.push(soa_rec(&xy, 303, &nm("ns.x.y"), &nm("b.a")));
+        m.ar.push(mx_rec(&nm("b.a"), 304, 1, &nm("mail.x.y")));
+        v.push(encode(&m, Strategy::Max));
+    }
     let al = aligned_pointer_packets();
     v.push(al[4].clone());
     v.push(al[5].clone());
